@@ -3,6 +3,7 @@
 regenerate (translators/c19_c, translators/c19_go -> lean/DaeVerif/C19/Gen) -> prove -> tie -> report
 """
 import glob, json, os, re, shutil, subprocess, sys, time
+from concurrent.futures import ThreadPoolExecutor
 from verifkit import read_lines, sh, go_env, VERIF, REPO, LEAN
 
 GEN = os.path.join(LEAN, "DaeVerif", "C19", "Gen")
@@ -383,9 +384,16 @@ def run(ctx):
         return 2
     ctx.cov["regenerate_s"] = round(time.time() - t0, 1)
 
+    variants = ["real", "stub"] if ctx.tier == "thorough" else ["real"]
+    # The Go harness builds do not depend on the Lean build: run them beside it (<= 3 jobs).
+    pool = ThreadPoolExecutor(max_workers=2)
+    f_go = {v: pool.submit(go_variant, ctx, v) for v in variants}
+    f_gen = pool.submit(gen_variant, ctx)
+
     # driver first (does not depend on the theorems), so that a broken table theorem can be explained
     ok, out = ctx.lake_build(["c19drv"])
     if not ok:
+        pool.shutdown(wait=True)
         ctx.proof_failures.append("lake build c19drv failed: " + " | ".join(l for l in out.split("\n") if "error" in l.lower())[:3000])
         return ctx.finish(rule="model does not build against the regenerated tables")
     n_items = diagnostics(ctx)
@@ -394,11 +402,11 @@ def run(ctx):
     ctx.required_theorems(REQUIRED)
 
     total = n_items
-    variants = ["real", "stub"] if ctx.tier == "thorough" else ["real"]
     stats = {}
     for v in variants:
-        ops = go_variant(ctx, v)
+        ops = f_go[v].result()
         if not ops:
+            pool.shutdown(wait=True)
             return 2
         total += diff(ctx, "go-" + v, ops, ops[:-4] + ".impl", ops[:-4] + ".model")
         stats[v] = json.load(open(os.path.join(ctx.out, f"c19go_{v}.stats.json")))
@@ -419,7 +427,8 @@ def run(ctx):
         ctx.report("Go data types in the regenerated tables that the harness never inspected in-process: " + ",".join(missing),
                    {"missing": missing}, no_input=True)
 
-    ops = gen_variant(ctx)
+    ops = f_gen.result()
+    pool.shutdown(wait=True)
     if not ops:
         return 2
     total += diff(ctx, "generator", ops, ops[:-4] + ".impl", ops[:-4] + ".model")
